@@ -24,6 +24,34 @@ pub static mut FLTABLE: FlTable = FlTable([0; PAGES * 1024]);
 pub static mut MAPS: [(usize, usize); 4] = [(0, 0); 4];
 pub static mut MAPS_N: usize = 0;
 
+/// E2 for the free-list table: `get_entry`/`set_entry` (the only two places that touch the table
+/// memory) are redirected to a typed static array; an access beyond what has been mapped so far is
+/// reported (natively the real slice bounds check panics there).
+pub fn mapped_entries() -> usize {
+    let mut bytes = 0;
+    let n = unsafe { MAPS_N };
+    let mut i = 0;
+    while i < 4 {
+        if i < n {
+            bytes += unsafe { MAPS[i].1 };
+        }
+        i += 1;
+    }
+    bytes >> 2
+}
+pub fn stub_get_entry(_l: &RawMemoryFreeList, index: i32) -> i32 {
+    let i = index as usize;
+    #[cfg(kani)]
+    kani::assert(index >= 0 && i < mapped_entries() && i < PAGES * 1024, "free-list table access inside the mapped table");
+    unsafe { FLTABLE.0[i] }
+}
+pub fn stub_set_entry(_l: &mut RawMemoryFreeList, index: i32, value: i32) {
+    let i = index as usize;
+    #[cfg(kani)]
+    kani::assert(index >= 0 && i < mapped_entries() && i < PAGES * 1024, "free-list table access inside the mapped table");
+    unsafe { FLTABLE.0[i] = value }
+}
+
 pub fn stub_dzmmap(start: Address, size: usize, _strategy: MmapStrategy, _annotation: &MmapAnnotation<'_>) -> MmapResult<Address> {
     unsafe {
         if MAPS_N < 4 {
@@ -34,39 +62,33 @@ pub fn stub_dzmmap(start: Address, size: usize, _strategy: MmapStrategy, _annota
     Ok(start)
 }
 
-/// `units` is concrete per harness (the table is a 12 KiB array; symbolic unit counts make every
-/// table access a symbolic-index access and exhaust memory); block size, grain and the growth
-/// steps stay symbolic.
-fn grow(s: &mut Src, units: i32, three_pages: bool) {
+/// `units` is concrete per harness (symbolic unit counts make every table access a symbolic-index
+/// access into a 3072-entry array); block size, grain and the growth steps stay symbolic.
+fn grow(s: &mut Src, units: i32, three_pages: bool, halves: bool, two_steps: bool) {
     let base = unsafe { Address::from_mut_ptr(FLTABLE.0.as_mut_ptr() as *mut u8) };
     let heads = 1;
     let pages = RawMemoryFreeList::size_in_pages(units, heads);
     chk!(s, "size_in_pages covers units + heads + 1 table units", (pages as usize) << LOG_BYTES_IN_PAGE >= ((units + heads + 1) as usize) << 3 && pages >= 1 && pages as usize <= PAGES);
     let ppb = s.any_in(1, 2) as i32;
     s.assume(ppb <= pages); // default_block_size never exceeds the table size
-    // grain: the whole list, half or a quarter of it
-    let gsel = s.any_in(0, 2);
-    s.assume(units % (1 << gsel) == 0);
-    let grain = units >> gsel;
+    // grain: the whole list or half of it (concrete per harness, like `units`: a symbolic grain
+    // makes every table index symbolic and exhausts the solver's memory)
+    let grain = if halves { units / 2 } else { units };
     let limit = base + ((pages as usize) << LOG_BYTES_IN_PAGE);
     let strategy = MmapStrategy::new(HugePageSupport::No, MmapProtection::ReadWrite, true, true);
     let mut l = RawMemoryFreeList::new(base, limit, ppb, units, grain, heads, strategy);
-    // growth steps: multiples of the grain (the documented precondition of grow_list_by_blocks),
-    // at most 4 grains per step so that the initialisation loop stays short
-    let k1 = s.any_in(1, 4) as i32;
-    let k2 = s.any_in(0, 3) as i32;
-    let (g1, g2) = (k1 * grain, k2 * grain);
-    s.assume(g1 + g2 <= units);
     unsafe {
         MAPS_N = 0;
     }
+    // one step to the maximum, or (two grains) two steps of one grain each
+    let g1 = if two_steps { grain } else { units };
     let r1 = l.grow_freelist(g1);
     chk!(s, "growing within the configured maximum succeeds", r1);
-    if g2 > 0 {
-        let r2 = l.grow_freelist(g2);
-        chk!(s, "a second growth step within the maximum succeeds", r2);
+    if two_steps {
+        let r2 = l.grow_freelist(grain);
+        chk!(s, "a second growth step up to the maximum succeeds", r2);
     }
-    let over = l.grow_freelist(units - g1 - g2 + 1);
+    let over = l.grow_freelist(1);
     chk!(s, "growing beyond the configured maximum is refused", !over);
     // every mapping lies inside [base, limit), mappings are consecutive from base
     #[cfg(kani)]
@@ -84,70 +106,123 @@ fn grow(s: &mut Src, units: i32, three_pages: bool) {
             i += 1;
         }
         chk!(s, "every mapping is inside [base, limit) and follows the previous one", ok);
-        cov!(s, "two mappings were needed (when the table has three pages)", !three_pages || n >= 2);
+        cov!(s, "two mappings were needed (two-step growth of a three-page table)", !(three_pages && two_steps) || n >= 2);
     }
-    // every unit up to the grown capacity is usable
-    let total = g1 + g2;
-    let per = if grain < g1 { grain } else { g1 };
-    let mut got = 0;
-    let mut k = 0;
-    let mut all_ok = true;
-    while k < 8 {
-        if got + per <= total {
-            let u = l.alloc(per);
-            all_ok &= u != FAILURE && u >= 0 && u + per <= total;
-            got += per;
-        }
-        k += 1;
+    // every unit up to the grown capacity is usable: allocate grain by grain
+    let a1 = l.alloc(grain);
+    chk!(s, "the first grain of the grown list can be allocated", a1 != FAILURE && a1 >= 0 && a1 + grain <= units && l.size(a1) == grain);
+    if halves {
+        let a2 = l.alloc(grain);
+        chk!(s, "the second grain can be allocated and is disjoint from the first", a2 != FAILURE && a2 >= 0 && a2 + grain <= units && (a2 + grain <= a1 || a1 + grain <= a2));
     }
-    chk!(s, "every grain of the grown list can be allocated", all_ok);
-    if got == total {
-        chk!(s, "a fully allocated list refuses further allocation", l.alloc(1) == FAILURE);
-    }
-    cov!(s, "table size is not a multiple of the block size and the last block is cut at the limit (three-page tables)", !three_pages || (pages % ppb != 0 && unsafe { MAPS_N } >= 2));
-    cov!(s, "two growth steps (for even unit counts)", units % 2 == 1 || g2 > 0);
+    chk!(s, "a fully allocated list refuses further allocation", l.alloc(1) == FAILURE);
+    cov!(s, "table size is not a multiple of the block size (three-page tables)", !three_pages || pages % ppb != 0);
+    cov!(s, "both block sizes explored", ppb == 2 || pages == 1);
 }
 
-pub fn c27_grow_1534(s: &mut Src) {
-    grow(s, 1534, true) // 3 pages exactly
+pub fn c27_grow_1534_one(s: &mut Src) {
+    grow(s, 1534, true, false, false)
 }
-pub fn c27_grow_1100(s: &mut Src) {
-    grow(s, 1100, true) // 3 pages, partly used
+pub fn c27_grow_1534_halves(s: &mut Src) {
+    grow(s, 1534, true, true, false)
 }
-pub fn c27_grow_1022(s: &mut Src) {
-    grow(s, 1022, false) // 2 pages exactly
+pub fn c27_grow_1534_twostep(s: &mut Src) {
+    grow(s, 1534, true, true, true)
 }
-pub fn c27_grow_600(s: &mut Src) {
-    grow(s, 600, false) // 2 pages, partly used
+pub fn c27_grow_1100_one(s: &mut Src) {
+    grow(s, 1100, true, false, false)
 }
-pub fn c27_grow_510(s: &mut Src) {
-    grow(s, 510, false) // 1 page exactly
+pub fn c27_grow_1100_halves(s: &mut Src) {
+    grow(s, 1100, true, true, false)
 }
-pub fn c27_grow_1024(s: &mut Src) {
-    grow(s, 1024, true) // first unit count that needs a third page
+pub fn c27_grow_1100_twostep(s: &mut Src) {
+    grow(s, 1100, true, true, true)
 }
-pub fn c27_grow_1023(s: &mut Src) {
-    grow(s, 1023, true) // units + heads + 1 fills two pages... plus one: three pages
+pub fn c27_grow_1024_one(s: &mut Src) {
+    grow(s, 1024, true, false, false)
 }
-pub fn c27_grow_512(s: &mut Src) {
-    grow(s, 512, false)
+pub fn c27_grow_1024_halves(s: &mut Src) {
+    grow(s, 1024, true, true, false)
 }
-pub fn c27_grow_511(s: &mut Src) {
-    grow(s, 511, false) // last slot of the first page
+pub fn c27_grow_1024_twostep(s: &mut Src) {
+    grow(s, 1024, true, true, true)
 }
-pub fn c27_grow_6(s: &mut Src) {
-    grow(s, 6, false)
+pub fn c27_grow_1023_one(s: &mut Src) {
+    grow(s, 1023, true, false, false)
 }
-
+pub fn c27_grow_1022_one(s: &mut Src) {
+    grow(s, 1022, false, false, false)
+}
+pub fn c27_grow_1022_halves(s: &mut Src) {
+    grow(s, 1022, false, true, false)
+}
+pub fn c27_grow_1022_twostep(s: &mut Src) {
+    grow(s, 1022, false, true, true)
+}
+pub fn c27_grow_600_one(s: &mut Src) {
+    grow(s, 600, false, false, false)
+}
+pub fn c27_grow_600_halves(s: &mut Src) {
+    grow(s, 600, false, true, false)
+}
+pub fn c27_grow_600_twostep(s: &mut Src) {
+    grow(s, 600, false, true, true)
+}
+pub fn c27_grow_512_one(s: &mut Src) {
+    grow(s, 512, false, false, false)
+}
+pub fn c27_grow_512_halves(s: &mut Src) {
+    grow(s, 512, false, true, false)
+}
+pub fn c27_grow_512_twostep(s: &mut Src) {
+    grow(s, 512, false, true, true)
+}
+pub fn c27_grow_511_one(s: &mut Src) {
+    grow(s, 511, false, false, false)
+}
+pub fn c27_grow_510_one(s: &mut Src) {
+    grow(s, 510, false, false, false)
+}
+pub fn c27_grow_510_halves(s: &mut Src) {
+    grow(s, 510, false, true, false)
+}
+pub fn c27_grow_510_twostep(s: &mut Src) {
+    grow(s, 510, false, true, true)
+}
+pub fn c27_grow_6_one(s: &mut Src) {
+    grow(s, 6, false, false, false)
+}
+pub fn c27_grow_6_halves(s: &mut Src) {
+    grow(s, 6, false, true, false)
+}
+pub fn c27_grow_6_twostep(s: &mut Src) {
+    grow(s, 6, false, true, true)
+}
 harnesses! {
-    #[kani::unwind(10)] #[kani::stub(alloc::fmt::format, crate::env::stub_format)] #[kani::stub(<mmtk::util::os::OS as mmtk::util::os::OSMemory>::dzmmap, crate::c27_rawgrow::stub_dzmmap)] c27_grow_1534; // tier=wip timeout=1200 jobs=3
-    #[kani::unwind(10)] #[kani::stub(alloc::fmt::format, crate::env::stub_format)] #[kani::stub(<mmtk::util::os::OS as mmtk::util::os::OSMemory>::dzmmap, crate::c27_rawgrow::stub_dzmmap)] c27_grow_1100; // tier=wip timeout=1200 jobs=3
-    #[kani::unwind(10)] #[kani::stub(alloc::fmt::format, crate::env::stub_format)] #[kani::stub(<mmtk::util::os::OS as mmtk::util::os::OSMemory>::dzmmap, crate::c27_rawgrow::stub_dzmmap)] c27_grow_1022; // tier=wip timeout=1200 jobs=3
-    #[kani::unwind(10)] #[kani::stub(alloc::fmt::format, crate::env::stub_format)] #[kani::stub(<mmtk::util::os::OS as mmtk::util::os::OSMemory>::dzmmap, crate::c27_rawgrow::stub_dzmmap)] c27_grow_600; // tier=wip timeout=1200 jobs=3
-    #[kani::unwind(10)] #[kani::stub(alloc::fmt::format, crate::env::stub_format)] #[kani::stub(<mmtk::util::os::OS as mmtk::util::os::OSMemory>::dzmmap, crate::c27_rawgrow::stub_dzmmap)] c27_grow_510; // tier=wip timeout=1200 jobs=3
-    #[kani::unwind(10)] #[kani::stub(alloc::fmt::format, crate::env::stub_format)] #[kani::stub(<mmtk::util::os::OS as mmtk::util::os::OSMemory>::dzmmap, crate::c27_rawgrow::stub_dzmmap)] c27_grow_1024; // tier=wip timeout=1200 jobs=3
-    #[kani::unwind(10)] #[kani::stub(alloc::fmt::format, crate::env::stub_format)] #[kani::stub(<mmtk::util::os::OS as mmtk::util::os::OSMemory>::dzmmap, crate::c27_rawgrow::stub_dzmmap)] c27_grow_1023; // tier=wip timeout=1200 jobs=3
-    #[kani::unwind(10)] #[kani::stub(alloc::fmt::format, crate::env::stub_format)] #[kani::stub(<mmtk::util::os::OS as mmtk::util::os::OSMemory>::dzmmap, crate::c27_rawgrow::stub_dzmmap)] c27_grow_512; // tier=wip timeout=1200 jobs=3
-    #[kani::unwind(10)] #[kani::stub(alloc::fmt::format, crate::env::stub_format)] #[kani::stub(<mmtk::util::os::OS as mmtk::util::os::OSMemory>::dzmmap, crate::c27_rawgrow::stub_dzmmap)] c27_grow_511; // tier=wip timeout=1200 jobs=3
-    #[kani::unwind(10)] #[kani::stub(alloc::fmt::format, crate::env::stub_format)] #[kani::stub(<mmtk::util::os::OS as mmtk::util::os::OSMemory>::dzmmap, crate::c27_rawgrow::stub_dzmmap)] c27_grow_6; // tier=wip timeout=1200 jobs=3
+    #[kani::unwind(6)] #[kani::stub(alloc::fmt::format, crate::env::stub_format)] #[kani::stub(<mmtk::util::os::OS as mmtk::util::os::OSMemory>::dzmmap, crate::c27_rawgrow::stub_dzmmap)] #[kani::stub(<mmtk::util::verif_freelist::RawMemoryFreeList as mmtk::util::verif_freelist::FreeList>::get_entry, crate::c27_rawgrow::stub_get_entry)] #[kani::stub(<mmtk::util::verif_freelist::RawMemoryFreeList as mmtk::util::verif_freelist::FreeList>::set_entry, crate::c27_rawgrow::stub_set_entry)] c27_grow_1534_one; // timeout=900 jobs=6
+    #[kani::unwind(6)] #[kani::stub(alloc::fmt::format, crate::env::stub_format)] #[kani::stub(<mmtk::util::os::OS as mmtk::util::os::OSMemory>::dzmmap, crate::c27_rawgrow::stub_dzmmap)] #[kani::stub(<mmtk::util::verif_freelist::RawMemoryFreeList as mmtk::util::verif_freelist::FreeList>::get_entry, crate::c27_rawgrow::stub_get_entry)] #[kani::stub(<mmtk::util::verif_freelist::RawMemoryFreeList as mmtk::util::verif_freelist::FreeList>::set_entry, crate::c27_rawgrow::stub_set_entry)] c27_grow_1534_halves; // timeout=900 jobs=6
+    #[kani::unwind(6)] #[kani::stub(alloc::fmt::format, crate::env::stub_format)] #[kani::stub(<mmtk::util::os::OS as mmtk::util::os::OSMemory>::dzmmap, crate::c27_rawgrow::stub_dzmmap)] #[kani::stub(<mmtk::util::verif_freelist::RawMemoryFreeList as mmtk::util::verif_freelist::FreeList>::get_entry, crate::c27_rawgrow::stub_get_entry)] #[kani::stub(<mmtk::util::verif_freelist::RawMemoryFreeList as mmtk::util::verif_freelist::FreeList>::set_entry, crate::c27_rawgrow::stub_set_entry)] c27_grow_1534_twostep; // timeout=900 jobs=6
+    #[kani::unwind(6)] #[kani::stub(alloc::fmt::format, crate::env::stub_format)] #[kani::stub(<mmtk::util::os::OS as mmtk::util::os::OSMemory>::dzmmap, crate::c27_rawgrow::stub_dzmmap)] #[kani::stub(<mmtk::util::verif_freelist::RawMemoryFreeList as mmtk::util::verif_freelist::FreeList>::get_entry, crate::c27_rawgrow::stub_get_entry)] #[kani::stub(<mmtk::util::verif_freelist::RawMemoryFreeList as mmtk::util::verif_freelist::FreeList>::set_entry, crate::c27_rawgrow::stub_set_entry)] c27_grow_1100_one; // timeout=900 jobs=6
+    #[kani::unwind(6)] #[kani::stub(alloc::fmt::format, crate::env::stub_format)] #[kani::stub(<mmtk::util::os::OS as mmtk::util::os::OSMemory>::dzmmap, crate::c27_rawgrow::stub_dzmmap)] #[kani::stub(<mmtk::util::verif_freelist::RawMemoryFreeList as mmtk::util::verif_freelist::FreeList>::get_entry, crate::c27_rawgrow::stub_get_entry)] #[kani::stub(<mmtk::util::verif_freelist::RawMemoryFreeList as mmtk::util::verif_freelist::FreeList>::set_entry, crate::c27_rawgrow::stub_set_entry)] c27_grow_1100_halves; // timeout=900 jobs=6
+    #[kani::unwind(6)] #[kani::stub(alloc::fmt::format, crate::env::stub_format)] #[kani::stub(<mmtk::util::os::OS as mmtk::util::os::OSMemory>::dzmmap, crate::c27_rawgrow::stub_dzmmap)] #[kani::stub(<mmtk::util::verif_freelist::RawMemoryFreeList as mmtk::util::verif_freelist::FreeList>::get_entry, crate::c27_rawgrow::stub_get_entry)] #[kani::stub(<mmtk::util::verif_freelist::RawMemoryFreeList as mmtk::util::verif_freelist::FreeList>::set_entry, crate::c27_rawgrow::stub_set_entry)] c27_grow_1100_twostep; // timeout=900 jobs=6
+    #[kani::unwind(6)] #[kani::stub(alloc::fmt::format, crate::env::stub_format)] #[kani::stub(<mmtk::util::os::OS as mmtk::util::os::OSMemory>::dzmmap, crate::c27_rawgrow::stub_dzmmap)] #[kani::stub(<mmtk::util::verif_freelist::RawMemoryFreeList as mmtk::util::verif_freelist::FreeList>::get_entry, crate::c27_rawgrow::stub_get_entry)] #[kani::stub(<mmtk::util::verif_freelist::RawMemoryFreeList as mmtk::util::verif_freelist::FreeList>::set_entry, crate::c27_rawgrow::stub_set_entry)] c27_grow_1024_one; // timeout=900 jobs=6
+    #[kani::unwind(6)] #[kani::stub(alloc::fmt::format, crate::env::stub_format)] #[kani::stub(<mmtk::util::os::OS as mmtk::util::os::OSMemory>::dzmmap, crate::c27_rawgrow::stub_dzmmap)] #[kani::stub(<mmtk::util::verif_freelist::RawMemoryFreeList as mmtk::util::verif_freelist::FreeList>::get_entry, crate::c27_rawgrow::stub_get_entry)] #[kani::stub(<mmtk::util::verif_freelist::RawMemoryFreeList as mmtk::util::verif_freelist::FreeList>::set_entry, crate::c27_rawgrow::stub_set_entry)] c27_grow_1024_halves; // timeout=900 jobs=6
+    #[kani::unwind(6)] #[kani::stub(alloc::fmt::format, crate::env::stub_format)] #[kani::stub(<mmtk::util::os::OS as mmtk::util::os::OSMemory>::dzmmap, crate::c27_rawgrow::stub_dzmmap)] #[kani::stub(<mmtk::util::verif_freelist::RawMemoryFreeList as mmtk::util::verif_freelist::FreeList>::get_entry, crate::c27_rawgrow::stub_get_entry)] #[kani::stub(<mmtk::util::verif_freelist::RawMemoryFreeList as mmtk::util::verif_freelist::FreeList>::set_entry, crate::c27_rawgrow::stub_set_entry)] c27_grow_1024_twostep; // timeout=900 jobs=6
+    #[kani::unwind(6)] #[kani::stub(alloc::fmt::format, crate::env::stub_format)] #[kani::stub(<mmtk::util::os::OS as mmtk::util::os::OSMemory>::dzmmap, crate::c27_rawgrow::stub_dzmmap)] #[kani::stub(<mmtk::util::verif_freelist::RawMemoryFreeList as mmtk::util::verif_freelist::FreeList>::get_entry, crate::c27_rawgrow::stub_get_entry)] #[kani::stub(<mmtk::util::verif_freelist::RawMemoryFreeList as mmtk::util::verif_freelist::FreeList>::set_entry, crate::c27_rawgrow::stub_set_entry)] c27_grow_1023_one; // timeout=900 jobs=6
+    #[kani::unwind(6)] #[kani::stub(alloc::fmt::format, crate::env::stub_format)] #[kani::stub(<mmtk::util::os::OS as mmtk::util::os::OSMemory>::dzmmap, crate::c27_rawgrow::stub_dzmmap)] #[kani::stub(<mmtk::util::verif_freelist::RawMemoryFreeList as mmtk::util::verif_freelist::FreeList>::get_entry, crate::c27_rawgrow::stub_get_entry)] #[kani::stub(<mmtk::util::verif_freelist::RawMemoryFreeList as mmtk::util::verif_freelist::FreeList>::set_entry, crate::c27_rawgrow::stub_set_entry)] c27_grow_1022_one; // timeout=900 jobs=6
+    #[kani::unwind(6)] #[kani::stub(alloc::fmt::format, crate::env::stub_format)] #[kani::stub(<mmtk::util::os::OS as mmtk::util::os::OSMemory>::dzmmap, crate::c27_rawgrow::stub_dzmmap)] #[kani::stub(<mmtk::util::verif_freelist::RawMemoryFreeList as mmtk::util::verif_freelist::FreeList>::get_entry, crate::c27_rawgrow::stub_get_entry)] #[kani::stub(<mmtk::util::verif_freelist::RawMemoryFreeList as mmtk::util::verif_freelist::FreeList>::set_entry, crate::c27_rawgrow::stub_set_entry)] c27_grow_1022_halves; // timeout=900 jobs=6
+    #[kani::unwind(6)] #[kani::stub(alloc::fmt::format, crate::env::stub_format)] #[kani::stub(<mmtk::util::os::OS as mmtk::util::os::OSMemory>::dzmmap, crate::c27_rawgrow::stub_dzmmap)] #[kani::stub(<mmtk::util::verif_freelist::RawMemoryFreeList as mmtk::util::verif_freelist::FreeList>::get_entry, crate::c27_rawgrow::stub_get_entry)] #[kani::stub(<mmtk::util::verif_freelist::RawMemoryFreeList as mmtk::util::verif_freelist::FreeList>::set_entry, crate::c27_rawgrow::stub_set_entry)] c27_grow_1022_twostep; // timeout=900 jobs=6
+    #[kani::unwind(6)] #[kani::stub(alloc::fmt::format, crate::env::stub_format)] #[kani::stub(<mmtk::util::os::OS as mmtk::util::os::OSMemory>::dzmmap, crate::c27_rawgrow::stub_dzmmap)] #[kani::stub(<mmtk::util::verif_freelist::RawMemoryFreeList as mmtk::util::verif_freelist::FreeList>::get_entry, crate::c27_rawgrow::stub_get_entry)] #[kani::stub(<mmtk::util::verif_freelist::RawMemoryFreeList as mmtk::util::verif_freelist::FreeList>::set_entry, crate::c27_rawgrow::stub_set_entry)] c27_grow_600_one; // timeout=900 jobs=6
+    #[kani::unwind(6)] #[kani::stub(alloc::fmt::format, crate::env::stub_format)] #[kani::stub(<mmtk::util::os::OS as mmtk::util::os::OSMemory>::dzmmap, crate::c27_rawgrow::stub_dzmmap)] #[kani::stub(<mmtk::util::verif_freelist::RawMemoryFreeList as mmtk::util::verif_freelist::FreeList>::get_entry, crate::c27_rawgrow::stub_get_entry)] #[kani::stub(<mmtk::util::verif_freelist::RawMemoryFreeList as mmtk::util::verif_freelist::FreeList>::set_entry, crate::c27_rawgrow::stub_set_entry)] c27_grow_600_halves; // timeout=900 jobs=6
+    #[kani::unwind(6)] #[kani::stub(alloc::fmt::format, crate::env::stub_format)] #[kani::stub(<mmtk::util::os::OS as mmtk::util::os::OSMemory>::dzmmap, crate::c27_rawgrow::stub_dzmmap)] #[kani::stub(<mmtk::util::verif_freelist::RawMemoryFreeList as mmtk::util::verif_freelist::FreeList>::get_entry, crate::c27_rawgrow::stub_get_entry)] #[kani::stub(<mmtk::util::verif_freelist::RawMemoryFreeList as mmtk::util::verif_freelist::FreeList>::set_entry, crate::c27_rawgrow::stub_set_entry)] c27_grow_600_twostep; // timeout=900 jobs=6
+    #[kani::unwind(6)] #[kani::stub(alloc::fmt::format, crate::env::stub_format)] #[kani::stub(<mmtk::util::os::OS as mmtk::util::os::OSMemory>::dzmmap, crate::c27_rawgrow::stub_dzmmap)] #[kani::stub(<mmtk::util::verif_freelist::RawMemoryFreeList as mmtk::util::verif_freelist::FreeList>::get_entry, crate::c27_rawgrow::stub_get_entry)] #[kani::stub(<mmtk::util::verif_freelist::RawMemoryFreeList as mmtk::util::verif_freelist::FreeList>::set_entry, crate::c27_rawgrow::stub_set_entry)] c27_grow_512_one; // timeout=900 jobs=6
+    #[kani::unwind(6)] #[kani::stub(alloc::fmt::format, crate::env::stub_format)] #[kani::stub(<mmtk::util::os::OS as mmtk::util::os::OSMemory>::dzmmap, crate::c27_rawgrow::stub_dzmmap)] #[kani::stub(<mmtk::util::verif_freelist::RawMemoryFreeList as mmtk::util::verif_freelist::FreeList>::get_entry, crate::c27_rawgrow::stub_get_entry)] #[kani::stub(<mmtk::util::verif_freelist::RawMemoryFreeList as mmtk::util::verif_freelist::FreeList>::set_entry, crate::c27_rawgrow::stub_set_entry)] c27_grow_512_halves; // timeout=900 jobs=6
+    #[kani::unwind(6)] #[kani::stub(alloc::fmt::format, crate::env::stub_format)] #[kani::stub(<mmtk::util::os::OS as mmtk::util::os::OSMemory>::dzmmap, crate::c27_rawgrow::stub_dzmmap)] #[kani::stub(<mmtk::util::verif_freelist::RawMemoryFreeList as mmtk::util::verif_freelist::FreeList>::get_entry, crate::c27_rawgrow::stub_get_entry)] #[kani::stub(<mmtk::util::verif_freelist::RawMemoryFreeList as mmtk::util::verif_freelist::FreeList>::set_entry, crate::c27_rawgrow::stub_set_entry)] c27_grow_512_twostep; // timeout=900 jobs=6
+    #[kani::unwind(6)] #[kani::stub(alloc::fmt::format, crate::env::stub_format)] #[kani::stub(<mmtk::util::os::OS as mmtk::util::os::OSMemory>::dzmmap, crate::c27_rawgrow::stub_dzmmap)] #[kani::stub(<mmtk::util::verif_freelist::RawMemoryFreeList as mmtk::util::verif_freelist::FreeList>::get_entry, crate::c27_rawgrow::stub_get_entry)] #[kani::stub(<mmtk::util::verif_freelist::RawMemoryFreeList as mmtk::util::verif_freelist::FreeList>::set_entry, crate::c27_rawgrow::stub_set_entry)] c27_grow_511_one; // timeout=900 jobs=6
+    #[kani::unwind(6)] #[kani::stub(alloc::fmt::format, crate::env::stub_format)] #[kani::stub(<mmtk::util::os::OS as mmtk::util::os::OSMemory>::dzmmap, crate::c27_rawgrow::stub_dzmmap)] #[kani::stub(<mmtk::util::verif_freelist::RawMemoryFreeList as mmtk::util::verif_freelist::FreeList>::get_entry, crate::c27_rawgrow::stub_get_entry)] #[kani::stub(<mmtk::util::verif_freelist::RawMemoryFreeList as mmtk::util::verif_freelist::FreeList>::set_entry, crate::c27_rawgrow::stub_set_entry)] c27_grow_510_one; // timeout=900 jobs=6
+    #[kani::unwind(6)] #[kani::stub(alloc::fmt::format, crate::env::stub_format)] #[kani::stub(<mmtk::util::os::OS as mmtk::util::os::OSMemory>::dzmmap, crate::c27_rawgrow::stub_dzmmap)] #[kani::stub(<mmtk::util::verif_freelist::RawMemoryFreeList as mmtk::util::verif_freelist::FreeList>::get_entry, crate::c27_rawgrow::stub_get_entry)] #[kani::stub(<mmtk::util::verif_freelist::RawMemoryFreeList as mmtk::util::verif_freelist::FreeList>::set_entry, crate::c27_rawgrow::stub_set_entry)] c27_grow_510_halves; // timeout=900 jobs=6
+    #[kani::unwind(6)] #[kani::stub(alloc::fmt::format, crate::env::stub_format)] #[kani::stub(<mmtk::util::os::OS as mmtk::util::os::OSMemory>::dzmmap, crate::c27_rawgrow::stub_dzmmap)] #[kani::stub(<mmtk::util::verif_freelist::RawMemoryFreeList as mmtk::util::verif_freelist::FreeList>::get_entry, crate::c27_rawgrow::stub_get_entry)] #[kani::stub(<mmtk::util::verif_freelist::RawMemoryFreeList as mmtk::util::verif_freelist::FreeList>::set_entry, crate::c27_rawgrow::stub_set_entry)] c27_grow_510_twostep; // timeout=900 jobs=6
+    #[kani::unwind(6)] #[kani::stub(alloc::fmt::format, crate::env::stub_format)] #[kani::stub(<mmtk::util::os::OS as mmtk::util::os::OSMemory>::dzmmap, crate::c27_rawgrow::stub_dzmmap)] #[kani::stub(<mmtk::util::verif_freelist::RawMemoryFreeList as mmtk::util::verif_freelist::FreeList>::get_entry, crate::c27_rawgrow::stub_get_entry)] #[kani::stub(<mmtk::util::verif_freelist::RawMemoryFreeList as mmtk::util::verif_freelist::FreeList>::set_entry, crate::c27_rawgrow::stub_set_entry)] c27_grow_6_one; // timeout=900 jobs=6
+    #[kani::unwind(6)] #[kani::stub(alloc::fmt::format, crate::env::stub_format)] #[kani::stub(<mmtk::util::os::OS as mmtk::util::os::OSMemory>::dzmmap, crate::c27_rawgrow::stub_dzmmap)] #[kani::stub(<mmtk::util::verif_freelist::RawMemoryFreeList as mmtk::util::verif_freelist::FreeList>::get_entry, crate::c27_rawgrow::stub_get_entry)] #[kani::stub(<mmtk::util::verif_freelist::RawMemoryFreeList as mmtk::util::verif_freelist::FreeList>::set_entry, crate::c27_rawgrow::stub_set_entry)] c27_grow_6_halves; // timeout=900 jobs=6
+    #[kani::unwind(6)] #[kani::stub(alloc::fmt::format, crate::env::stub_format)] #[kani::stub(<mmtk::util::os::OS as mmtk::util::os::OSMemory>::dzmmap, crate::c27_rawgrow::stub_dzmmap)] #[kani::stub(<mmtk::util::verif_freelist::RawMemoryFreeList as mmtk::util::verif_freelist::FreeList>::get_entry, crate::c27_rawgrow::stub_get_entry)] #[kani::stub(<mmtk::util::verif_freelist::RawMemoryFreeList as mmtk::util::verif_freelist::FreeList>::set_entry, crate::c27_rawgrow::stub_set_entry)] c27_grow_6_twostep; // timeout=900 jobs=6
 }
